@@ -349,6 +349,12 @@ impl<T: Send> AsyncSender<T> {
 
 impl<T: Send> Clone for Sender<T> {
   fn clone(&self) -> Self {
+    // a clone of a closed handle is closed too: it must not revive a disconnected channel
+    if self.closed {
+      let mut clone = Sender::from_shared(Arc::clone(&self.shared));
+      clone.closed = true;
+      return clone;
+    }
     self.shared.add_sender();
     Sender::from_shared(Arc::clone(&self.shared))
   }
@@ -356,6 +362,12 @@ impl<T: Send> Clone for Sender<T> {
 
 impl<T: Send> Clone for AsyncSender<T> {
   fn clone(&self) -> Self {
+    // a clone of a closed handle is closed too: it must not revive a disconnected channel
+    if self.closed {
+      let mut clone = AsyncSender::from_shared(Arc::clone(&self.shared));
+      clone.closed = true;
+      return clone;
+    }
     self.shared.add_sender();
     AsyncSender::from_shared(Arc::clone(&self.shared))
   }
